@@ -128,6 +128,7 @@ type SpecDB struct {
 type GuardSpec struct {
 	Pkg, Global, Mutex string
 	ReadersAlso        string
+	InsertOnce         bool // a map whose entries are created once and never overwritten (check-then-insert must be atomic)
 	Props              []string
 	File               string
 	Line               int
@@ -325,10 +326,14 @@ func (db *SpecDB) loadFile(path, pkgPath string) error {
 				r = strings.TrimSpace(r[:k])
 			}
 			f := strings.Fields(r)
-			if !(len(f) == 3 || (len(f) == 5 && f[3] == "readers-also")) || f[1] != "by" {
-				return fail("guarded GLOBAL by MUTEX [readers-also MUTEX2] {props}")
+			insertOnce := false
+			if len(f) > 3 && f[len(f)-1] == "insert-once" {
+				insertOnce, f = true, f[:len(f)-1]
 			}
-			gs := &GuardSpec{Pkg: pkgPath, Global: f[0], Mutex: f[2], Props: props, File: path, Line: it.line}
+			if !(len(f) == 3 || (len(f) == 5 && f[3] == "readers-also")) || f[1] != "by" {
+				return fail("guarded GLOBAL by MUTEX [readers-also MUTEX2] [insert-once] {props}")
+			}
+			gs := &GuardSpec{Pkg: pkgPath, Global: f[0], Mutex: f[2], Props: props, File: path, Line: it.line, InsertOnce: insertOnce}
 			if len(f) == 5 {
 				gs.ReadersAlso = f[4] // every writer also holds this (exclusive) lock, so holding it is enough to read
 			}
